@@ -75,6 +75,31 @@ Section SessionWrappers.
     sess_check_state mac k now s = false /\ sess_check_json mac json_ok k now s = false.
   Proof. unfold sess_check_state, sess_check_json. intros ->. auto. Qed.
 
+  (** The gate reports a valid user only for a live genuine session whose user
+      the caller's callback granted a non-negative level; for a refused session
+      the callback is not consulted and no user is reported; the callback's
+      error is the gate's error. *)
+  Theorem gate_valid_sound cb k maxttl now s i :
+    gate_check_token mac cb k maxttl now s = Some i -> gi_valid i = true ->
+    exists e lvl, is_int64 e /\ is_bytes (gi_user i) /\
+      s = sign_hex k (le64 (u64_of_int e) ++ gi_user i) /\ now < e /\
+      cb (gi_user i) = Some lvl /\ 0 <= lvl /\ gi_level i = lvl.
+  Proof.
+    unfold gate_check_token.
+    destruct (sess_check k now s) as [[u left]|] eqn:E; [|intros [= <-]; discriminate].
+    destruct (cb u) as [lvl|] eqn:C; [|discriminate]. intros [= <-]. cbn [gi_valid gi_user gi_level]. intros V.
+    apply (sess_check_iff mac mac_len mac_bytes) in E. destruct E as (e & He & Hu & -> & T & _).
+    exists e, lvl. apply Z.leb_le in V. auto 10.
+  Qed.
+
+  Theorem gate_refused_session k cb maxttl now s :
+    sess_check k now s = None -> gate_check_token mac cb k maxttl now s = Some (mkGI false [] 0 false).
+  Proof. unfold gate_check_token. now intros ->. Qed.
+
+  Theorem gate_callback_error cb k maxttl now s u left :
+    sess_check k now s = Some (u, left) -> cb u = None -> gate_check_token mac cb k maxttl now s = None.
+  Proof. unfold gate_check_token. now intros -> ->. Qed.
+
   Lemma sess_check_needs_hex k now s : check_hex k s = None -> sess_check k now s = None.
   Proof. unfold Sign.sess_check, sess_check_with. fold (Sign.check_hex mac). now intros ->. Qed.
 
